@@ -579,3 +579,95 @@ func TestVfC14WriteStall(t *testing.T) {
 		})
 	})
 }
+
+// TestVfC14UdpServerRestart: the datagram transport's "connection" dies too - an ICMP port unreachable turns the next
+// read on the connected socket into ECONNREFUSED. Exchanges waiting on it fail promptly, and once the server is back on
+// its port the upstream works again: a dead socket that stays in the pool would swallow every later query.
+func TestVfC14UdpServerRestart(t *testing.T) {
+	st := vfkit.Stats("TestVfC14UdpServerRestart", "udp upstream on real loopback sockets: 1-3 warm exchanges, the server goes away (port closed), 1-4 exchanges with 1-2 s deadlines meet the closed port (sequentially or together), the server comes back on the same port after 0-300 ms; oracles: every exchange against the closed port returns an error and none later than its deadline + 1.2 s, at least one of them well before its deadline (the port-unreachable error is a dead connection, not silence), and after the restart an exchange succeeds within 3 attempts of 1 s; non-trivial = every case")
+	defer vfkit.Flush()
+	rapid.Check(t, func(t *rapid.T) {
+		handler := func(q *vfkit.UpQuery) vfkit.UpAction { return vfkit.UpAction{Reply: vfOKReply(q)} }
+		srv, err := vfkit.StartUpstream("udp", "s", "127.0.0.1", 0, nil, handler)
+		if err != nil {
+			t.Fatalf("fake server: %v", err)
+		}
+		port := srv.Port
+		closed := false
+		defer func() {
+			if !closed {
+				srv.Close()
+			}
+		}()
+		u := vfNewUpstream(t, "udp", port, 0)
+		defer vfClose(u)
+		for i, n := 0, rapid.IntRange(1, 3).Draw(t, "warmExchanges"); i < n; i++ {
+			ctx, cancel := context.WithTimeout(context.Background(), 3*time.Second)
+			ok, err, _ := vfExchange(u, ctx, uint16(10+i), "warm.c14")
+			cancel()
+			if !ok {
+				t.Fatalf("warm-up exchange failed: %v", err)
+			}
+		}
+		srv.Close()
+		closed = true
+		time.Sleep(time.Duration(rapid.SampledFrom([]int{0, 1, 20}).Draw(t, "afterCloseMs")) * time.Millisecond)
+		k := rapid.IntRange(1, 4).Draw(t, "exchangesAgainstClosedPort")
+		together := rapid.Bool().Draw(t, "together")
+		deadline := time.Duration(rapid.SampledFrom([]int{1000, 1500, 2000}).Draw(t, "deadlineMs")) * time.Millisecond
+		type res struct {
+			ok   bool
+			err  error
+			took time.Duration
+		}
+		out := make(chan res, k)
+		one := func(i int) {
+			ctx, cancel := context.WithTimeout(context.Background(), deadline)
+			ok, err, took := vfExchange(u, ctx, uint16(50+i), "down.c14")
+			cancel()
+			out <- res{ok, err, took}
+		}
+		for i := 0; i < k; i++ {
+			if together {
+				go one(i)
+			} else {
+				one(i)
+			}
+		}
+		fastest := time.Hour
+		for i := 0; i < k; i++ {
+			r := <-out
+			if r.ok || r.err == nil {
+				t.Fatalf("an exchange against a closed port returned ok=%v err=%v", r.ok, r.err)
+			}
+			if r.took > deadline+1200*time.Millisecond {
+				t.Fatalf("an exchange with a %v deadline against a closed port returned after %v", deadline, r.took)
+			}
+			if r.took < fastest {
+				fastest = r.took
+			}
+		}
+		if fastest > deadline-300*time.Millisecond {
+			t.Fatalf("the server's port was closed (ICMP port unreachable on loopback), yet each of the %d exchanges sat out its %v deadline (fastest %v): the dead connection was not noticed", k, deadline, fastest)
+		}
+		time.Sleep(time.Duration(rapid.SampledFrom([]int{0, 5, 300}).Draw(t, "downForMs")) * time.Millisecond)
+		srv2, err := vfkit.StartUpstream("udp", "s", "127.0.0.1", port, nil, handler)
+		if err != nil {
+			vfkit.Inconclusive("cannot rebind 127.0.0.1:%d: %v", port, err)
+		}
+		defer srv2.Close()
+		var lastErr error
+		okAfter := false
+		for attempt := 0; attempt < 3 && !okAfter; attempt++ {
+			ctx, cancel := context.WithTimeout(context.Background(), time.Second)
+			okAfter, lastErr, _ = vfExchange(u, ctx, uint16(90+attempt), "back.c14")
+			cancel()
+		}
+		if !okAfter {
+			t.Fatalf("the server is back on port %d, but three exchanges of 1 s each failed (last error: %v): the upstream keeps using a dead socket", port, lastErr)
+		}
+		st.Case(vfkit.Fingerprint(k, together, deadline), true, []string{fmt.Sprintf("together=%v", together)}, func() any {
+			return map[string]any{"exchanges_against_closed_port": k, "together": together, "deadline_ms": deadline.Milliseconds(), "fastest_failure_ms": fastest.Milliseconds()}
+		})
+	})
+}
